@@ -32,6 +32,7 @@ type Engine struct {
 	SolverKind string
 	TimeoutMs  int
 	Verbose    bool
+	Thorough   bool
 
 	initOrder []*ssa.Package
 	LoadTime  time.Duration
@@ -146,9 +147,13 @@ func (e *Engine) NewMachine() (*Machine, []string) {
 			continue
 		}
 		func() {
+			t0 := time.Now()
 			defer func() {
 				if r := recover(); r != nil {
 					problems = append(problems, fmt.Sprintf("init %s: %s", pkg.Pkg.Path(), describePanic(r)))
+				}
+				if e.Verbose {
+					fmt.Fprintf(os.Stderr, "init %s: %v steps=%d\n", pkg.Pkg.Path(), time.Since(t0), ip.steps)
 				}
 			}()
 			m.initPackage(pkg, fn)
